@@ -1,3 +1,4 @@
+@classmethod
 def spec(cls, support, rate):
     support, rate = _astensorsfloat(support, rate)
     return torch.special.xlogy(support, rate) - rate - torch.lgamma(support + 1)
